@@ -27,6 +27,8 @@ def main():
     dest = os.path.join(ROOT, "seeded", "%s-%s" % (pid, a.k))
     os.makedirs(dest, exist_ok=True)
     for f in os.listdir(src):
+        if f == "meta.json" and os.path.exists(os.path.join(dest, f)):
+            continue  # keep the recorded confirmation
         if os.path.isfile(os.path.join(src, f)) and os.path.getsize(os.path.join(src, f)) < 2_000_000:
             shutil.copy(os.path.join(src, f), dest)
     patch = os.path.join(dest, "patch.diff")
